@@ -80,7 +80,7 @@ TARGETS = {
 _NAME_OF = {id(v[2]): k for k, v in TARGETS.items()}
 _NAME_OF[id(gc.macro)] = '<macro>'
 _NAME_OF[id(gc._retrieve_constant)] = '<constant>'
-PARAMS = {'singleton': ['constructor']}
+PARAMS = {'singleton': ['constructor'], 'a_Cls': ['x', 'y'], 'a_meth': ['x', 'y']}
 SCOPES = ['', 'a', 'a/b', 'A', 'B/a', 'zz/a']
 MACROS = ['mm', 'MM', 'a/mm', 'zeta']
 CONSTS = {'CC': ['i', 5], 'vq.KK': ['o', 'object']}
@@ -212,7 +212,7 @@ def _python(d, spell):
           'y': lambda: d[1].encode('latin1')}.get(t, lambda: d[1])()
 
 
-def _static_spellings(target):
+def _static_spellings(target, absent=()):
   """Unambiguous dotted suffixes of the target's selector, shortest first."""
   mod, name, _ = TARGETS[target]
   parts = (mod + '.' + name).split('.')
@@ -220,173 +220,180 @@ def _static_spellings(target):
   out = []
   for i in range(len(parts) - keep, -1, -1):
     suffix = '.'.join(parts[i:])
-    hits = [s for s in _ALL_SELECTORS if s == suffix or s.endswith('.' + suffix)]
+    hits = [s for s in _ALL_SELECTORS if (s == suffix or s.endswith('.' + suffix)) and s not in absent]
     if len(hits) == 1 or i == 0:
       out.append(suffix)
   return out
 
 
 # ------------------------------------------------------------- case generation
-def _gen_value(rng, depth, targets, allow_obj=True):
+def _walk(d):
+  yield d
+  for x in _children(d):
+    for y in _walk(x):
+      yield y
+
+
+def _refs(b):
+  return {d[2] for d in _walk(b['value']) if d[0] == 'r'}
+
+
+def _b(scope, target, param, value, spell=0, prog=False):
+  """One binding; `prog`: made with bind_parameter (else written into the parsed text)."""
+  return {'scope': scope, 'target': target, 'param': param, 'spell': spell, 'value': value,
+          'prog': bool(prog or not _literal(value) or (target == '%' and '.' in param))}
+
+
+def _features(case):
+  """Stable description of the kind of input, for failure signatures.  Everything after
+  the mode is an input shape on which the current /repo is known to violate the property."""
+  f, groups = [case['mode']], {}
+  for b in case['bindings']:
+    if b['target'] != '%':
+      groups.setdefault((b['scope'], b['target']), []).append(_literal(b['value']))
+  if not all(any(g) for g in groups.values()):
+    f.append('configurable_with_only_nonliteral_values')
+  if case['mode'] == 'dynamic' and 'a_meth' not in case['prereg'] and any(
+      'a_Cls' in _refs(b) and 'a_meth' in _refs(b) | {b['target']} for b in case['bindings']):
+    f.append('class_ref_in_statement_that_registers_its_method')
+  f += ['late_registration'] * bool(case.get('late'))
+  f += ['dotted_macro'] * any(b['target'] == '%' and '.' in b['param'] for b in case['bindings'])
+  return f + sorted({'obj=' + d[1] for b in case['bindings'] for d in _walk(b['value'])
+                     if d[0] == 'o' and d[1].startswith('repr_')})
+
+
+def _gen_value(rng, depth, targets):
   r = rng.random()
   if depth < 3 and r < 0.25:
-    kind = rng.choice('ltd')
-    n = rng.choice([0, 1, 1, 2, 3, 5])
+    kind, n = rng.choice('ltd'), rng.choice([0, 1, 1, 2, 3, 5])
     if kind == 'd':
-      keys = rng.sample(DICT_KEYS, min(n, len(DICT_KEYS)))
-      return ['d', [[k, _gen_value(rng, depth + 1, targets, allow_obj)] for k in keys]]
-    return [kind, [_gen_value(rng, depth + 1, targets, allow_obj) for _ in range(n)]]
+      return ['d', [[k, _gen_value(rng, depth + 1, targets)] for k in rng.sample(DICT_KEYS, n)]]
+    return [kind, [_gen_value(rng, depth + 1, targets) for _ in range(n)]]
   if r < 0.37:
     return ['r', rng.choice(SCOPES), rng.choice(targets), rng.randrange(3), rng.random() < 0.5]
-  if r < 0.43:
-    return ['m', rng.choice(MACROS)]
   if r < 0.47:
-    return ['c', rng.choice(sorted(CONSTS))]
-  if r < 0.55 and allow_obj:
-    return ['o', rng.choice(_OBJ_KINDS)]
-  return rng.choice(LEAVES)
+    return ['m', rng.choice(MACROS)] if r < 0.43 else ['c', rng.choice(sorted(CONSTS))]
+  return ['o', rng.choice(_OBJ_KINDS)] if r < 0.57 else rng.choice(LEAVES)
 
 
-def _gen_case(rng, tier, mode=None, n=None):
-  mode = mode or rng.choice(['static', 'static', 'dynamic'])
-  pool = list(TARGETS) if mode == 'static' or rng.random() < 0.3 else list(TARGETS)[:-1]
-  targets = rng.sample(pool, rng.randint(1, 4))
-  n = n or rng.choice([1, 2, 3, 3, 4, 4, 5])
-  keys, bindings = set(), []
-  while len(bindings) < n:
-    if rng.random() < 0.2:
-      key = ('', '%', rng.choice(MACROS))
-    else:
-      tgt = rng.choice(targets)
-      key = (rng.choice(SCOPES), tgt, rng.choice(PARAMS.get(tgt, ['x', 'y', 'z', 'w'][:2 if tgt in (
-          'a_Cls', 'a_meth') else 4])))
-    if key in keys:
-      continue
-    keys.add(key)
-    value = _gen_value(rng, 0, targets)
-    while mode == 'dynamic' and not _literal(value) and any(d[0] == 'r' for d in _walk(value)):
-      value = _gen_value(rng, 0, targets)  # programmatic values cannot use import aliases
-    bindings.append({'scope': key[0], 'target': key[1], 'param': key[2],
-                     'spell': rng.randrange(3), 'value': value})
-  case = {'mode': mode, 'bindings': bindings,
-          'via': rng.choice(['bind', 'parse']) if mode == 'static' else 'parse'}
-  if mode == 'dynamic':
-    used = sorted({TARGETS[t][0] for t in _used_targets(bindings)} - {'gin'})
-    case['imports'] = [[m, rng.choice(['plain', 'plain_as'] if m == 'vq_top' else
-                                      ['plain_as', 'from', 'from_as', 'from', 'parent'])]
-                       for m in used]
-    if rng.random() < 0.5:  # at most one import may bind the bare name `vq_pkg`
-      for imp in case['imports']:
-        if imp[0] == rng.choice(['vq_pkg.alpha', 'vq_pkg.beta']):
-          imp[1] = 'plain'
-    need = sorted({b['target'] for b in bindings if b['target'] != '%' and not _literal(b['value'])})
-    case['prereg'] = sorted(set(need) | set(rng.sample(targets, rng.randint(0, 1))))
-  else:
-    case['imports'] = [[m, rng.choice(['plain', 'from'])]
-                       for m in rng.sample(['vq_pkg.alpha', 'vq_top'], rng.choice([0, 0, 1, 2]))]
-  idx = list(range(n))
-  perms = list(itertools.permutations(idx))[1:]
-  if n == 5 and tier == 'quick':
-    perms = rng.sample(perms, 12)
-  case['orders'] = [idx] + [list(p) for p in perms]
-  case['widths'] = _gen_widths(rng, 3 if tier == 'quick' else 8)
+def _finish(case):
+  """Derives the imports needed by the parsed text and the pre-registrations needed by the
+  programmatic bindings (dynamic registration only)."""
+  text = [b for b in case['bindings'] if not b['prog']]
+  used = {b['target'] for b in text if b['target'] != '%'}.union(*map(_refs, text))
+  case['modules'] = sorted({TARGETS[t][0] for t in used} - {'gin'})
+  prog = [b for b in case['bindings'] if b['prog']]
+  prereg = set(case.get('prereg', [])).union(
+      {b['target'] for b in prog if b['target'] != '%'}, *map(_refs, prog))
+  # a class is always pre-registered together with its method (registering the method later
+  # would re-register the class under the selector of the import alias)
+  case['prereg'] = sorted(prereg | ({'a_meth'} if 'a_Cls' in prereg else set()))
   return case
 
 
-def _gen_widths(rng, k):
-  out = [[80, 4]]
-  ind = rng.choice([0, 1, 2, 4, 8])
-  out.append([ind + 1, ind])
-  while len(out) < k:
+def _gen_case(rng, tier, n=None):
+  mode = rng.choice(['static', 'static', 'dynamic'])
+  pool = list(TARGETS) if mode == 'static' or rng.random() < 0.3 else list(TARGETS)[:-1]
+  targets = rng.sample(pool, rng.randint(1, 4))
+  n = n or rng.choice([1, 2, 3, 3, 4, 4, 5])
+  all_prog = mode == 'static' and rng.random() < 0.5
+  while True:
+    keys, bindings = set(), []
+    while len(bindings) < n:
+      tgt = '%' if rng.random() < 0.2 else rng.choice(targets)
+      params = MACROS if tgt == '%' else PARAMS.get(tgt, ['x', 'y', 'z', 'w'])
+      key = ('' if tgt == '%' else rng.choice(SCOPES), tgt, rng.choice(params))
+      if key not in keys:
+        keys.add(key)
+        bindings.append(_b(*key, _gen_value(rng, 0, targets), rng.randrange(3),
+                           all_prog or rng.random() < 0.2))
+    case = _finish({'mode': mode, 'bindings': bindings, 'prereg': rng.sample(targets, rng.randint(0, 1))})
+    if len(_features(case)) == 1:   # the known-defect shapes are confined to the corner cases
+      break
+  forms = list(IMPORT_FORMS) if mode == 'dynamic' else ['plain', 'from']
+  mods = case.pop('modules') if mode == 'dynamic' else rng.sample(['vq_pkg.alpha', 'vq_top'],
+                                                                  rng.choice([0, 0, 1, 2]))
+  case['imports'] = [[m, rng.choice(forms if '.' in m else ['plain', 'plain_as'][:len(forms) - 1])]
+                     for m in mods]
+  perms = list(itertools.permutations(range(n)))
+  if n == 5 and tier == 'quick':
+    perms = perms[:1] + rng.sample(perms[1:], 12)
+  case['orders'] = [list(p) for p in perms]
+  case['widths'] = [[80, 4]]
+  for k in range(2 if tier == 'quick' else 7):
     ind = rng.choice([0, 1, 2, 4, 8])
-    out.append([rng.randint(ind + 1, 120), ind])
-  return out
-
-
-def _used_targets(bindings):
-  used = set()
-
-  def walk(d):
-    if d[0] == 'r':
-      used.add(d[2])
-    for x in _children(d):
-      walk(x)
-  for b in bindings:
-    if b['target'] != '%':
-      used.add(b['target'])
-    walk(b['value'])
-  return used
-
-
-def _b(scope, target, param, value, spell=0):
-  return {'scope': scope, 'target': target, 'param': param, 'spell': spell, 'value': value}
+    case['widths'].append([ind + 1 if k == 0 else rng.randint(ind + 1, 120), ind])
+  case.pop('modules', None)
+  return case
 
 
 def _corner_cases():
   ref = lambda t, scope='', ev=False, sp=0: ['r', scope, t, sp, ev]
   obj = lambda k: ['o', k]
-  base = {'mode': 'static', 'via': 'bind', 'imports': [], 'widths': [[80, 4], [5, 4], [1, 0]]}
+  one = ['i', 1]
+  widths = [[80, 4], [5, 4], [1, 0]]
+
+  def make(mode, bindings, orders=None, prog=False, imports=None, **kw):
+    bindings = [_b(*b[:4], prog=prog) for b in bindings]
+    case = _finish(dict(kw, mode=mode, bindings=bindings, widths=widths, orders=orders or [
+        list(p) for p in itertools.permutations(range(len(bindings)))]))
+    mods = case.pop('modules')
+    case['imports'] = imports or [[m, 'from' if '.' in m else 'plain'] for m in mods] * (mode == 'dynamic')
+    return case
+
   groups = [
       # selectors / scopes / macro names that tie case-insensitively
-      [_b('', 'a_Foo', 'x', ['i', 1]), _b('', 'a_foo', 'x', ['i', 2])],
-      [_b('a', 'a_fa', 'x', ['i', 1]), _b('A', 'a_fa', 'x', ['i', 2]), _b('', 'b_fa', 'y', ['n'])],
-      [_b('', '%', 'mm', ['i', 1]), _b('', '%', 'MM', ['i', 2]), _b('', 't_gg', 'x', ['m', 'MM'])],
-      # macros and parameters without a literal form
-      [_b('', '%', 'mm', obj('object')), _b('', '%', 'zeta', obj('unknown_ref')),
-       _b('', 't_gg', 'x', ['m', 'mm']), _b('', 't_gg', 'y', obj('lambda'))],
-      [_b('', 't_gg', 'x', ['l', [['i', 1], obj('inf')]]), _b('', 't_gg', 'y', ['d', [[['s', 'k1'],
-                                                                                    obj('set')]]])],
+      [('', 'a_Foo', 'x', one), ('', 'a_foo', 'x', ['i', 2])],
+      [('a', 'a_fa', 'x', one), ('A', 'a_fa', 'x', ['i', 2]), ('', 'b_fa', 'y', ['n'])],
+      [('', '%', 'mm', one), ('', '%', 'MM', ['i', 2]), ('', 't_gg', 'x', ['m', 'MM'])],
+      # macros and parameters without a literal form, next to ones that have it
+      [('', '%', 'mm', obj('object')), ('', '%', 'zeta', obj('unknown_ref')),
+       ('', 't_gg', 'x', ['m', 'mm']), ('', 't_gg', 'y', obj('lambda'))],
+      [('', 't_gg', 'x', ['l', [one, obj('inf')]]), ('', 't_gg', 'z', one),
+       ('', 't_gg', 'y', ['d', [[['s', 'k1'], obj('set')]]]), ('', '%', 'a/mm', obj('nan'))],
       # methods, classes, same name in two modules, references of every spelling
-      [_b('', 'a_meth', 'x', ref('a_Cls', 'a/b', True)), _b('zz/a', 'a_Cls', 'y', ref('a_meth')),
-       _b('', 'a_fa', 'x', ref('b_fa', '', True, 2)), _b('', 'b_fa', 'x', ref('a_fa', 'B/a'))],
-      [_b('a', 'singleton', 'constructor', ref('a_Cls')), _b('', 't_gg', 'x', ['c', 'CC']),
-       _b('', 't_gg', 'y', ['c', 'vq.KK'])],
-      [_b('', 't_gg', 'x', ['s', _WORDS * 3]), _b('', 't_gg', 'y', ['y', 'ab cd ' * 20]),
-       _b('a/b', 't_gg', 'z', ['d', [[['s', 'k1'], ['l', [['s', _WORDS], ['t', [['i', 1]]]]]],
-                                     [['i', 3], ['t', []]]]])],
+      [('', 'a_meth', 'x', ref('a_Cls', 'a/b', True)), ('zz/a', 'a_Cls', 'y', ref('a_meth')),
+       ('', 'a_fa', 'x', ref('b_fa', '', True, 2)), ('', 'b_fa', 'x', ref('a_fa', 'B/a'))],
+      [('a', 'singleton', 'constructor', ref('a_Cls')), ('', 't_gg', 'x', ['c', 'CC']),
+       ('', 't_gg', 'y', ['c', 'vq.KK'])],
+      [('', 't_gg', 'x', ['s', _WORDS * 3]), ('', 't_gg', 'y', ['y', 'ab cd ' * 20]),
+       ('a/b', 't_gg', 'z', ['d', [[['s', 'k1'], ['l', [['s', _WORDS], ['t', [one]]]]],
+                                   [['i', 3], ['t', []]]]])],
   ]
   for g in groups:
-    for mode, via in (('static', 'bind'), ('static', 'parse'), ('dynamic', 'parse')):
-      if mode == 'dynamic' and any(b['target'] == 'singleton' for b in g):
-        continue
-      case = dict(base, mode=mode, via=via, bindings=g,
-                  orders=[list(p) for p in itertools.permutations(range(len(g)))])
-      if mode == 'dynamic':
-        case['imports'] = [[m, 'from'] for m in sorted(
-            {TARGETS[t][0] for t in _used_targets(g)})]
-        case['prereg'] = sorted({b['target'] for b in g
-                                 if b['target'] != '%' and not _literal(b['value'])})
-      yield case
-  # dynamic registration: every import form, two imports binding the same name, pre-registered
+    yield make('static', g, prog=True)
+    yield make('static', g)
+    yield make('dynamic', g, prereg=['a_meth'])
+    yield make('dynamic', g, prog=True)   # everything pre-registered, nothing imported by the text
+  # dynamic registration: every import form, two imports binding the same name
   for form in IMPORT_FORMS:
-    yield dict(base, mode='dynamic', via='parse', prereg=['t_gg'], orders=[[0, 1, 2], [2, 1, 0]],
+    yield make('dynamic', [('a', 'a_fa', 'x', ref('b_fa', 'a', True)), ('', 'b_fa', 'y', ['m', 'mm']),
+                           ('', 't_gg', 'x', obj('object')), ('', 't_gg', 'y', one)],
                imports=[['vq_pkg.alpha', form], ['vq_pkg.beta', 'from_as'], ['vq_top', 'plain']],
-               bindings=[_b('a', 'a_fa', 'x', ref('b_fa', 'a', True)), _b('', 'b_fa', 'y', ['m', 'mm']),
-                         _b('', 't_gg', 'x', obj('object'))])
-  yield dict(base, mode='dynamic', via='parse', prereg=[], orders=[[0, 1], [1, 0]],
-             imports=[['vq_pkg.alpha', 'plain'], ['vq_pkg.beta', 'plain']],
-             bindings=[_b('', 'a_fa', 'x', ['i', 1]), _b('', 'b_fa', 'x', ref('a_Foo'))])
-  yield dict(base, mode='dynamic', via='parse', prereg=['singleton', 'a_meth'], orders=[[0, 1]],
-             imports=[['vq_top', 'plain_as']],
-             bindings=[_b('s', 'singleton', 'constructor', obj('type')), _b('', 'a_meth', 'x', obj('nan'))])
+               orders=[[0, 1, 2, 3], [3, 1, 2, 0]])
+  for forms in (('plain', 'plain'), ('plain_as', 'parent'), ('parent', 'plain')):
+    yield make('dynamic', [('', 'a_fa', 'x', one), ('', 'b_fa', 'x', ref('a_Foo')), ('', '%', 'mm', one)],
+               imports=[['vq_pkg.alpha', forms[0]], ['vq_pkg.beta', forms[1]]])
+  # ---- input shapes on which the current /repo is known to violate the property
+  # every value bound for a configurable lacks a literal form
+  yield make('static', [('', 't_gg', 'x', obj('object')), ('', 'a_fa', 'x', one)], [[0, 1]])
+  # dynamic registration: `Cls.meth.x = @Cls()` is the statement that registers the method
+  yield make('dynamic', [('', 'a_meth', 'x', ref('a_Cls', '', True)), ('', 'a_Cls', 'x', one)])
   # a reference spelled with a selector that a later registration makes ambiguous
-  yield dict(base, late=['b_fa'], orders=[[0, 1]],
-             bindings=[_b('', 't_gg', 'x', ref('a_fa')), _b('', 't_gg', 'y', ['i', 1])])
+  yield make('static', [('', 't_gg', 'x', ref('a_fa')), ('', 't_gg', 'y', one)], [[0, 1]], late=['b_fa'])
   # a macro whose name contains a period (only reachable through bind_parameter)
-  yield dict(base, orders=[[0, 1]], dotted_macro=True,
-             bindings=[_b('', '%', 'vq.dotted', ['i', 3]), _b('', 't_gg', 'x', ['m', 'vq.dotted'])])
-  # objects whose repr() is not even tokenisable / names an unknown configurable
+  yield make('static', [('', '%', 'vq.dotted', ['i', 3]), ('', 't_gg', 'x', ['m', 'vq.dotted'])], [[0, 1]])
+  # objects whose repr() is not tokenisable / names an unknown configurable
   for kind in ('repr_unterminated', 'repr_atref'):
-    yield dict(base, orders=[[0, 1]], bindings=[_b('', 't_gg', 'x', obj(kind)),
-                                                _b('', 't_gg', 'y', ['i', 1])])
+    yield make('static', [('', 't_gg', 'x', obj(kind)), ('', 't_gg', 'y', one)], [[0, 1]])
 
 
 def cases(tier, rng):
   for case in _corner_cases():
     yield case
-  for _ in range(400 if tier == 'quick' else 9000):
+  for _ in range(500 if tier == 'quick' else 6000):
     yield _gen_case(rng, tier)
-  for _ in range(20 if tier == 'quick' else 400):   # five bindings, every mode
+  for _ in range(20 if tier == 'quick' else 300):
     yield _gen_case(rng, tier, n=5)
 
 
@@ -395,69 +402,45 @@ def nontrivial(case):
 
 
 # ------------------------------------------------------------------- the check
-def _features(case):
-  """Stable description of the kind of input, for failure signatures."""
-  f = [case['mode']]
-  kinds = sorted({d[1] for b in case['bindings'] for d in _walk(b['value']) if d[0] == 'o'})
-  f += ['late_registration'] * bool(case.get('late')) + ['dotted_macro'] * bool(case.get('dotted_macro'))
-  f += ['obj=' + k for k in kinds if k.startswith('repr_')]
-  return ' '.join(f)
-
-
-def _walk(d):
-  yield d
-  for x in _children(d):
-    for y in _walk(x):
-      yield y
-
-
 def _register(names):
   if 'a_meth' in names:
     gin.register(_ALPHA.Cls.meth)
-  for name in names:
-    mod, _, obj = TARGETS[name]
-    if name not in ('a_meth', 'singleton'):
-      gin.external_configurable(obj, module=mod)
-  if 'a_meth' in names and 'a_Cls' not in names:
-    gin.external_configurable(_ALPHA.Cls, module='vq_pkg.alpha')
+  for name in set(names) - {'a_meth', 'singleton'} | ({'a_Cls'} if 'a_meth' in names else set()):
+    gin.external_configurable(TARGETS[name][2], module=TARGETS[name][0])
 
 
 def _apply(case, order):
-  """Makes the bindings of the case, in the given order, into a cleared configuration."""
+  """Makes the bindings of the case, in the given order, into a cleared configuration:
+  first the parsed text (imports, then the non-`prog` bindings), then the `prog` ones."""
   gin.clear_config()
   dynamic = case['mode'] == 'dynamic'
-  prefix = {}
-  lines = ['from __gin__ import dynamic_registration'] if dynamic else []
+  lines, prefix = ['from __gin__ import dynamic_registration'] * dynamic, {'gin': 'gin'}
   for mod, form in case['imports']:
     stmt, prefix[mod] = IMPORT_FORMS[form](mod)
     lines.append(stmt)
-  prefix['gin'] = 'gin'
+  absent = ['%s.%s' % TARGETS[t][:2] for t in case.get('late', [])]
 
-  def spell(target, i):
+  def spell(target, i, prog=False):
     mod, name, _ = TARGETS[target]
-    if dynamic:
-      return prefix[mod] + '.' + name
-    options = _static_spellings(target)
+    if dynamic:   # programmatic code cannot see the import aliases of a config file
+      return (mod if prog else prefix[mod]) + '.' + name
+    options = _static_spellings(target, absent)
     return options[i % len(options)]
 
-  later = []
-  for i in order:
-    b = case['bindings'][i]
-    if b['target'] == '%':
-      key = b['param'] if case['via'] == 'parse' else '%' + b['param']
-    else:
-      key = (b['scope'] + '/' if b['scope'] else '') + spell(b['target'], b['spell']) + '.' + b['param']
-    if case['via'] == 'parse' and _literal(b['value']) and '.' not in b['param']:
+  assert sorted(order) == list(range(len(case['bindings'])))
+  ordered = [case['bindings'][i] for i in order]
+  for b in ordered:
+    if not b['prog']:
+      key = b['param'] if b['target'] == '%' else '%s%s.%s' % (
+          b['scope'] + '/' * bool(b['scope']), spell(b['target'], b['spell']), b['param'])
       lines.append('%s = %s' % (key, _source(b['value'], spell)))
-    else:
-      later.append((b, key))
   gin.parse_config('\n'.join(lines))
-  for b, key in later:   # programmatic bindings (always after the parsed text)
-    if b['target'] == '%':
-      key = '%' + b['param']
-    elif dynamic:
-      key = (b['scope'], gc._INVERSE_REGISTRY[TARGETS[b['target']][2]].selector, b['param'])
-    gin.bind_parameter(key, _python(b['value'], spell))
+  for b in ordered:
+    if b['prog']:
+      pspell = lambda t, i: spell(t, i, True)
+      key = '%' + b['param'] if b['target'] == '%' else (
+          b['scope'], pspell(b['target'], b['spell']), b['param'])
+      gin.bind_parameter(key, _python(b['value'], pspell))
 
 
 def _expected(case):
@@ -521,43 +504,38 @@ def _markdown(text):
 
 def check(case):
   fails = []
-  feat = _features(case)
+  feat = ' '.join(_features(case))
 
   def fail(clause, expected, observed, sig):
+    sig = '%s: %s [%s]' % (clause, sig, feat)
+    if sig in [f['signature'] for f in fails]:
+      return   # once per case (the same failure usually repeats at every width)
     fails.append({'clause': clause, 'expected': expected, 'observed': str(observed)[:300],
-                  'signature': '%s: %s [%s]' % (clause, sig, feat)})
+                  'signature': sig})
 
-  def attempt(clause, fn, *args):
+  def attempt(clause, fn, *args, note=''):
     try:
       return fn(*args)
     except Exception as e:  # gin may not raise here; the harness would report it less precisely
-      fail(clause, 'no exception', '%s: %s' % (type(e).__name__, e), 'exc=' + type(e).__name__)
+      fail(clause, 'no exception', '%s: %s %s' % (type(e).__name__, e, note), 'exc=' + type(e).__name__)
       return None
 
   for name, d in CONSTS.items():
     gin.constant(name, _python(d, None))
-  if case['mode'] == 'static':
-    _register([t for t in TARGETS if t not in case.get('late', [])])
-  else:
-    _register(case['prereg'])
-  expected = _expected(case)
-  (w0, i0), reference = case['widths'][0], None
+  late = case.get('late', [])
+  _register([t for t in TARGETS if t not in late] if case['mode'] == 'static' else case['prereg'])
+  expected, texts = _expected(case), []
   for oi, order in enumerate(case['orders']):
     _apply(case, order)
     if oi == 0:
-      _register(case.get('late', []))
+      _register(late)
       imports0 = _imports()
-    text = attempt('serialises', gc.config_str, w0, i0)
-    if text is None:
-      return fails
-    if oi == 0:
-      reference = text
-    elif text != reference:
-      fail('order_independent', reference, text, 'text differs between binding orders')
-      break
-  if len(case['orders']) > 1:
-    _apply(case, case['orders'][0])
-  texts = [(w, i, attempt('serialises', gc.config_str, w, i)) for w, i in case['widths']]
+      texts = [(w, i, attempt('serialises', gc.config_str, w, i)) for w, i in case['widths']]
+    elif texts[0][2] is not None:
+      text = attempt('serialises', gc.config_str, *case['widths'][0])
+      if text != texts[0][2]:
+        fail('order_independent', texts[0][2], text, 'text differs between binding orders')
+        break
   for w, i, text in texts:
     if text is None:
       continue
@@ -568,8 +546,7 @@ def check(case):
     if bad:
       fail('markdown_verbatim', 'every binding line kept', bad, 'binding lines altered')
     gin.clear_config()
-    if attempt('always_parses', gc.parse_config, text) is None:
-      fails[-1]['observed'] += ' ' + where
+    if attempt('always_parses', gc.parse_config, text, note=where) is None:
       continue
     observed = _observed()
     for key in sorted(set(expected) | set(observed), key=repr):
